@@ -31,6 +31,9 @@ func scaleCases(tier string) []scalekit.Case {
 			}
 		}
 	}
+	for _, n := range scale.Sizes(40, 129) {
+		out = append(out, scalekit.Case{Shape: "many-revisions", N: n})
+	}
 	for k := 2; k <= maxK; k++ {
 		i := 0
 		scale.IncludeTrees(k, func(kids [][]int) {
@@ -42,6 +45,36 @@ func scaleCases(tier string) []scalekit.Case {
 }
 
 func checkScale(cs scalekit.Case) scalekit.Verdict {
+	if cs.Shape == "many-revisions" {
+		// a module with n revision statements, the latest one in the middle of the list, next to
+		// a module with one older and one with one newer revision
+		older := dump.File{Name: "older.yang", Text: `module m { namespace "urn:m"; prefix m; revision 1999-01-01; leaf old { type string; } }`}
+		newer := dump.File{Name: "newer.yang", Text: `module m { namespace "urn:m"; prefix m; revision 2999-01-01; leaf new { type string; } }`}
+		latest := fmt.Sprintf("m@%04d-01-01", 2000+cs.N)
+		for _, files := range [][]dump.File{{scale.Counts(cs.N), older}, {older, scale.Counts(cs.N)}, {newer, scale.Counts(cs.N), older}} {
+			ms := yang.NewModules()
+			for _, f := range files {
+				if err := ms.Parse(f.Text, f.Name); err != nil {
+					return scalekit.Bad("load-rejected-must-accept", "three different revisions load", err.Error())
+				}
+			}
+			if ms.Modules[latest] == nil {
+				var ks []string
+				for k := range ms.Modules {
+					ks = append(ks, k)
+				}
+				return scalekit.Bad("registered-under-another-revision", latest, strings.Join(ks, " "))
+			}
+			want := ms.Modules[latest]
+			if len(files) == 3 {
+				want = ms.Modules["m@2999-01-01"]
+			}
+			if ms.Modules["m"] != want {
+				return scalekit.Bad("bare-name-denotes-an-older-revision", "the latest loaded revision", ms.Modules["m"].Current())
+			}
+		}
+		return scalekit.OK()
+	}
 	if cs.Shape == "include-tree" {
 		var files []dump.File
 		i := 0
